@@ -35,7 +35,7 @@ SCRIPTS = {
     "parent": "f_parent", "parents": "f_parents", "children": "f_children", "pid": "Skip",
 }
 ORACLE_ONLY = ("children_rec", "iter:name,ppid")          # enumerated against the property oracle only
-KMAX = {"children_rec": 40, "iter:name,ppid": 60, "as_dict": 60}           # upper bounds of their access counts (checked at run time)
+KMAX = {"children_rec": 26, "iter:name,ppid": 38, "as_dict": 64}           # upper bounds of their access counts (checked at run time)
 PAIRS = (["name", "ppid"], ["uids", "gids", "username"], ["memory_full_info", "memory_maps", "memory_info"],
          ["exe", "cmdline", "status"], ["open_files", "num_fds", "threads"])
 TREE = ("parent", "parents", "children", "children_rec")    # calls that query other Process objects too
@@ -46,7 +46,7 @@ RULE = ("every Linux Process query reachable through psutil.Process (all of psut
         "parents, children, children(recursive), as_dict() in full and for attribute groups sharing a oneshot cache, "
         "process_iter(attrs)) x base kind {live, kernel thread, zombie, live with racing descriptor/thread/smaps_rollup} x "
         "EVERY access index k of the call (count taken from a dry run of the model / implementation) x fault "
-        "{vanish at k, EACCES at k, EPERM at k}; thorough adds every pair (deny at i, vanish at j>i). After every vanish all "
+        "{vanish at k, EACCES at k, EPERM at k (quick: odd k only)}; thorough adds every pair (deny at i, vanish at j>i). After every vanish all "
         "OS-consulting queries are called again on the same object. A case is non-trivial when the fault fires "
         "(k below the number of accesses); distinct = distinct (kind, method, fault schedule).")
 TRUSTED = ["correspondence harness props/C03.py + props/_c03_world.py (fake procfs, access-counting fault shim over "
@@ -61,7 +61,7 @@ ASSUMPTIONS = ["the first read of an opened procfs file is the only read access 
                "data returned by a successful access is well formed (parsing of malformed content is C06/C12/C13/C14)",
                "refusals (EACCES/EPERM) are injected on per-process paths only, not on global procfs files",
                "CPython exception matching and the os/io layer are modelled, not verified"]
-EXHAUSTIVE = {"quick": "all access indexes x {vanish, EACCES, EPERM} for every scripted and oracle-only method and all four base kinds",
+EXHAUSTIVE = {"quick": "all access indexes x {vanish, EACCES} (EPERM at every odd index) for every scripted and oracle-only method and all four base kinds",
               "thorough": "the same plus all two-fault sequences (deny at i, vanish at j>i)"}
 
 
@@ -178,7 +178,8 @@ def gen_cases(rng, tier):
         for k in ks:
             mk("V", b, m, o, k, [])
             mk("D-EACCES", b, m, o, None, [[k, "EACCES"]])
-            mk("D-EPERM", b, m, o, None, [[k, "EPERM"]])
+            if tier != "quick" or k % 2 == 1:      # both errnos are PermissionError to Python; quick alternates
+                mk("D-EPERM", b, m, o, None, [[k, "EPERM"]])
         if tier == "thorough":
             for i in range(n):
                 for j in range(i + 1, n):
@@ -248,6 +249,11 @@ def oracle(case, impl):
             return "raises ZombieProcess for a process that is not a zombie"
         if name == "AccessDenied" and not denied and case["base"] != "zombie":
             return "raises AccessDenied although nothing was refused"
+    if case.get("v") == 0 and not denied and m.split(":")[0] not in ("is_running", "children", "children_rec") \
+            and not m.startswith("iter:"):
+        # gone before the call's first access: an OS-consulting query on a fresh object must raise NoSuchProcess
+        if not (out["t"] == "Exc" and out["a"][0]["t"] == "NoSuchProcess"):
+            return "the process was gone before the call started but the call did not raise NoSuchProcess"
     if bad_after:
         return "after the process vanished a later query did not raise NoSuchProcess: %s" % json.dumps(bad_after)[:200]
     return None
